@@ -445,7 +445,7 @@ pub fn run(ctx: &Ctx, rep: &mut Report) {
     }
     crate::gen_syntax::set_allow_block(false);
     rep.note("feature mask: no block-string descriptions (C07)");
-    let n = ctx.budget(3_000, 150_000);
+    let n = ctx.budget(24_000, 300_000);
     for case in 0..n {
         let mut rng = ctx.rng("case", case);
         let (files, config, scalars, allow) = gen_case(&mut rng);
